@@ -700,6 +700,12 @@ def cat_all_cfgs():
                         for part in (g, a, o, d):
                             cfg.update(part)
                         out.append((f"{len(L)}:{s0}:{gk}:{ak}:{ok}:{dk}", cfg))
+        # a category value that compares EQUAL to the global one and means something else: vary_rounds 1 is +-1 round,
+        # vary_rounds 1.0 is +-100 % (both directions, scheme-level and through the 'all' pseudo-scheme)
+        for tag, g_key, c_key in (("own", f"{s0}__vary_rounds", f"admin__{s0}__vary_rounds"), ("all", "all__vary_rounds", "admin__all__vary_rounds")):
+            for gv, cv, vk in ((1, 1.0, "int_vs_float"), (1.0, 1, "float_vs_int")):
+                cfg = {"schemes": list(L), f"{s0}__default_rounds": sc["r"], f"{s0}__min_rounds": sc["a"], f"{s0}__max_rounds": sc["b"], g_key: gv, c_key: cv}
+                out.append((f"{len(L)}:{s0}:equal_valued:{vk}:{tag}:none", cfg))
     return out
 
 
